@@ -77,12 +77,20 @@ Section Spec.
   Definition good (oa : option ann) (v : value) : bool :=
     match oa with Some a => supported ctx a && is_must (conforms ctx a v) | None => false end.
 
+  (* the value assigned through a property (obj.p = x) is the one explicit argument of the setter *)
+  Definition setter_value_bad (f : fn) (c : call) : bool :=
+    f_setter f && match declared f, c_args c with
+                  | [p], [x] => bad (p_ann p) x
+                  | _, _ => false
+                  end.
+
   (* C03, first sentence: some supplied value does not conform *)
-  Definition c03_args_bad (f : fn) (c : call) : bool :=
+  Definition c03_supplied_bad (f : fn) (c : call) : bool :=
     match twin_binding f c with
     | Ok b => existsb (fun av => bad (fst av) (snd av)) (supplied_of f c b)
     | Raise _ => false
     end.
+  Definition c03_args_bad (f : fn) (c : call) : bool := c03_supplied_bad f c || setter_value_bad f c.
   (* C03, second sentence: the produced value does not conform to the return annotation *)
   Definition c03_result_bad (f : fn) (v : value) : bool := bad (f_ret f) v.
 
